@@ -71,8 +71,24 @@ def dr_oracle(case, impl, model=None):
     return None
 
 
+def threshold_history(rng, region, start, confirmed_mix):
+    """a silent run across an ADR threshold (64: ADRACKReq; 96, 128: step down) made of confirmed and unconfirmed uplinks alike"""
+    net = machist.Net(rng, region)
+    net.abp()
+    net.op("dr %d" % max(machist.UPLINK_DR[region]))
+    net.op("patch adrcnt=%d" % start)
+    net.snap()
+    for i in range(12):
+        conf = (i % 2 == 0) if confirmed_mix == 1 else (confirmed_mix == 2)
+        net.send(rng.bytes(rng.below(3)), rng.range(1, 200), conf, ndraws=40)
+        net.rx2c()
+        net.snap()
+    return net.line()
+
+
 def gen(rng, tier):
-    lines = []
+    lines = [threshold_history(rng.fork("t%d-%d-%d" % (region, st, mix)), region, st, mix)
+             for region in range(9) for st in (57, 89, 121) for mix in (0, 1, 2)]
     n, length = (4, 230) if tier == "quick" else (60, 600)
     for region in range(9):
         for i in range(n):
